@@ -61,6 +61,16 @@ def family(name, perm=None, irf="none", mc_order=None, ds_order=None):
         md["initial_concentration"] = {"j1": {"compartments": c_order, "parameters": [f"j.{c}" for c in c_order]}}
         md["megacomplex"]["m1"] = {"type": "decay", "k_matrix": ["km1"]}
         md["dataset"]["d1"].update({"megacomplex": ["m1"], "initial_concentration": "j1"})
+    elif name == "chain4":
+        # an unbranched chain with only the first compartment excited: declared in chain order the closed-form path
+        # applies, declared in any other order the general path must give the same labelled result
+        comps = ["s1", "s2", "s3", "s4"]
+        vals.update({"k.1": 2.0, "k.2": 0.9, "k.3": 0.3, "k.4": 0.05, "j.s1": 1.0, "j.s2": 0.0, "j.s3": 0.0, "j.s4": 0.0})
+        md["k_matrix"] = {"km1": {"matrix": {"s2<-s1": "k.1", "s3<-s2": "k.2", "s4<-s3": "k.3", "s4<-s4": "k.4"}}}
+        c_order = p(comps)
+        md["initial_concentration"] = {"j1": {"compartments": c_order, "parameters": [f"j.{c}" for c in c_order]}}
+        md["megacomplex"]["m1"] = {"type": "decay", "k_matrix": ["km1"]}
+        md["dataset"]["d1"].update({"megacomplex": ["m1"], "initial_concentration": "j1"})
     elif name == "decay2":
         # two general decay megacomplexes sharing one initial concentration whose compartments may be interleaved
         comps = ["s1", "s2", "s3", "s4"]
@@ -249,7 +259,7 @@ def run(run: core.Run):
     quick = run.tier == "quick"
     perms = []
     for fam, n, irfs in (("parallel", 3, ("none", "plain", "dispersed")), ("parallel", 4, ("none", "dispersed")),
-                         ("decay", 3, ("none", "dispersed")), ("decay", 5, ("none",)), ("decay2", 4, ("none", "plain")),
+                         ("decay", 3, ("none", "dispersed")), ("decay", 5, ("none",)), ("decay2", 4, ("none", "plain")), ("chain4", 4, ("none", "plain")),
                          ("oscillation", 3, ("none", "plain", "dispersed")), ("pfid", 3, ("dispersed",)), ("spectral", 3, ("none",))):  # fmt: skip
         for irf in irfs:
             all_p = list(itertools.permutations(range(n)))[1:]
